@@ -53,12 +53,17 @@ static void label(const char *name, bool deliver) {
     }
 }
 
-static const char *CTOR[] = {"", "ctor.interrupter", "ctor.msgptr", "ctor.msgsize", "ctor.sigint", "ctor.sigterm", "ctor.stop0"};
+// call-out ids -> labels: "<function>.<store just made>", in the order of the
+// stores in src/solver.cc (id 7 occurs twice in SetHandler: after handler_ = 0
+// and after data_ = data)
+static const char *CTOR[] = {"", "ctor.interrupter", "ctor.msgptr", "ctor.msgsize", "ctor.stop0", "ctor.sigint", "ctor.sigterm"};
 static const char *DTOR[] = {"dtor.interrupter0", "dtor.stop1", "dtor.handler0", "dtor.msgsize0"};
+static int sevens = 0;          // call-outs with id 7 seen in the running SetHandler call
 static void hook(int id) {
   char name[40];
   if (id >= 1 && id <= 6) snprintf(name, sizeof(name), "%s", CTOR[id]);
-  else if (id == 7 || id == 8) snprintf(name, sizeof(name), "set%d.%s", set_call, id == 7 ? "handler" : "data");
+  else if (id == 7) { ++sevens; snprintf(name, sizeof(name), "set%d.%s", set_call, sevens == 1 ? "handler0" : sevens == 2 ? "data" : "extra"); }
+  else if (id == 8) snprintf(name, sizeof(name), "set%d.handler", set_call);
   else if (id >= 9 && id <= 12) snprintf(name, sizeof(name), "%s", DTOR[id - 9]);
   else snprintf(name, sizeof(name), "hook.%d", id);
   label(name, true);
@@ -90,12 +95,12 @@ static void child(int nreg) {
     mp::internal::SignalHandler sh(s);
     label("ctor.end", false);
     poll(s);
-    set_call = 1; label("set1.begin", false);
+    set_call = 1; sevens = 0; label("set1.begin", false);
     s.interrupter()->SetHandler(cb1, &d1);
     label("set1.end", false);
     poll(s);
     if (nreg == 2) {
-      set_call = 2; label("set2.begin", false);
+      set_call = 2; sevens = 0; label("set2.begin", false);
       s.interrupter()->SetHandler(cb2, &d2);
       label("set2.end", false);
       poll(s);
